@@ -369,11 +369,12 @@ pub async fn run_app(ix: usize, f: TcpFlow, obs: Shared<FlowObs>, atomic_handsha
             // half-close (what a well-behaved application does): FIN now, keep reading until the proxy ends the flow.
             // A full close with answers still in flight is an abort (RST on the next segment) and belongs to C15.
             let _ = wr.shutdown().await;
-            let _ = tokio::time::timeout(Duration::from_secs(100), rx.wait_for(|n| *n == usize::MAX)).await;
+            let _ = rx.wait_for(|n| *n == usize::MAX).await;
         }
         Ending::AppAfterAll => {
             let want = f.down_total();
-            let _ = tokio::time::timeout(Duration::from_secs(100), rx.wait_for(|n| *n >= want)).await;
+            // slow is not stalled: wait as long as it takes; the driver decides when nothing moves any more
+            let _ = rx.wait_for(|n| *n >= want).await;
         }
         Ending::AppReset => {
             reader.abort();
@@ -454,18 +455,19 @@ pub async fn run_target(ix: usize, f: TcpFlow, obs: Shared<FlowObs>) {
             let (tx, mut rx) = watch::channel(0usize);
             let (rd, mut wr) = tokio::io::split(s);
             let reader = tokio::spawn(pump_reads(rd, obs.clone(), false, tx));
-            let wait = f.target_waits_for.max(1);
+            let wait = f.target_waits_for.clamp(1, expected_up(&f, ix).len().max(1));
             let _ = rx.wait_for(|n| *n >= wait).await;
             run_ops(&mut wr, &f.down, ix, 1, &[], &obs, false).await;
             obs.lock().unwrap().target.script_done = true;
             match f.ending {
                 Ending::TargetAfterWrite => {
                     let _ = wr.shutdown().await;
-                    let _ = tokio::time::timeout(Duration::from_secs(100), rx.wait_for(|n| *n == usize::MAX)).await;
+                    let _ = rx.wait_for(|n| *n == usize::MAX).await;
                 }
                 Ending::TargetAfterAll => {
                     let want = expected_up(&f, ix).len();
-                    let _ = tokio::time::timeout(Duration::from_secs(100), rx.wait_for(|n| *n >= want)).await;
+                    // slow is not stalled: wait as long as it takes; the driver decides when nothing moves any more
+            let _ = rx.wait_for(|n| *n >= want).await;
                 }
                 Ending::TargetReset => {
                     reader.abort();
